@@ -610,8 +610,9 @@ def interp1d(
             else:
                 result = np.broadcast_to(y, (len(np.atleast_1d(input_var)),))
 
-            if not isinstance(input_var, np.ndarray):
-                # the output of scipy's interp1d is always an array
+            if np.ndim(input_var) == 0:
+                # scalar query: like scipy's interp1d, return one value (lists,
+                # tuples and arrays give one value per queried point)
                 result = np.array(result[0])
 
             return result
